@@ -406,11 +406,11 @@ func init() {
 					if r.Intn(2) == 0 {
 						docs = append(docs, map[string]any{k: []any{nil, "again", map[string]any{"z": 0}}[r.Intn(3)]})
 					}
-					if r.Intn(3) == 0 { // five to seven layers, each with its own idea of that member: folded strictly left to right
+					if r.Intn(2) == 0 { // five to nine layers, each with its own idea of that member: folded strictly left to right
 						docs = docs[:0]
-						for i, n := 0, 5+r.Intn(3); i < n; i++ {
+						for i, n := 0, 5+r.Intn(5); i < n; i++ {
 							d := deepCopy(a).(map[string]any)
-							d[k] = []any{map[string]any{fmt.Sprintf("m%d", i): i}, "scalar", nil, []any{i}, map[string]any{"shared": i}}[r.Intn(5)]
+							d[k] = []any{map[string]any{fmt.Sprintf("m%d", i): i}, "scalar", []any{i}, map[string]any{fmt.Sprintf("m%d", i): i, "shared": i}, nil}[r.Intn(9)%5]
 							docs = append(docs, d)
 						}
 					}
